@@ -25,5 +25,6 @@ CONSTANTS
   ObjOf <- objB
   ActOf <- actB
   Raws <- rawB
-INVARIANTS Export AtMostOneOutcome OwnResult ExecOnceIfOk ExecAtMostOnce PostAtMostOnce PostNoResponse OnlyCallAndPostExecute
+  Deviations <- NoDev
+INVARIANTS Export AtMostOneOutcome OwnResult ExecOnceIfOk ExecAtMostOnce PostAtMostOnce PostNoResponse FramesOwed OnlyCallAndPostExecute
 CHECK_DEADLOCK FALSE
